@@ -1,5 +1,6 @@
 import Unimock.Lemmas.State
 import Unimock.Model.Lifecycle
+import Unimock.Props.C18
 /-!
 # C08 — a mock-induced panic anywhere makes final verification fail with that error
 
@@ -156,5 +157,140 @@ theorem C08_teardown_forwards (w : World α ρ) (x : Inst) (t : Nat) (m : MockSt
     | nil => exact absurd hrs hr
     | cons _ _ => rfl
   simp [horig, h1, hm, ht, h2]
+
+/-! ## the error log along arbitrary histories of a whole world (instances, clones, threads) -/
+
+/-- every mock of `w` is still there in `w'`, created by the same thread, and its error log has only grown -/
+def LogLe (w w' : World α ρ) : Prop :=
+  ∀ (k : Nat) (m : MockSt α ρ), w.mocks[k]? = some m →
+    ∃ m' : MockSt α ρ, w'.mocks[k]? = some m' ∧ m'.creator = m.creator ∧ m.shared.reasons <+: m'.shared.reasons
+
+theorem LogLe.refl (w : World α ρ) : LogLe w w := fun _ m h => ⟨m, h, rfl, List.prefix_refl _⟩
+
+theorem LogLe.trans {a b c : World α ρ} (h1 : LogLe a b) (h2 : LogLe b c) : LogLe a c := by
+  intro k m hm
+  obtain ⟨m1, hm1, hc1, hp1⟩ := h1 k m hm
+  obtain ⟨m2, hm2, hc2, hp2⟩ := h2 k m1 hm1
+  exact ⟨m2, hm2, hc2.trans hc1, hp1.trans hp2⟩
+
+theorem LogLe.of_mocks_eq {w w' : World α ρ} (h : w'.mocks = w.mocks) : LogLe w w' := by
+  intro k m hm; exact ⟨m, by rw [h]; exact hm, rfl, List.prefix_refl _⟩
+
+theorem setInst_mocks' (w : World α ρ) (i : Nat) (x : Inst) : (w.setInst i x).mocks = w.mocks := by
+  unfold World.setInst; split <;> rfl
+
+theorem free_mocks (w : World α ρ) (i : Nat) : (w.free i).mocks = w.mocks := by
+  unfold World.free; split
+  · rfl
+  · exact setInst_mocks' _ _ _
+
+theorem dropInst_mocks (w : World α ρ) (i t : Nat) (p : Bool) : (dropInst w i t p).1.mocks = w.mocks := by
+  unfold dropInst
+  split
+  · rfl
+  · split
+    · exact free_mocks _ _
+    · split
+      · simp only; rw [free_mocks]; exact setInst_mocks' _ _ _
+      · exact free_mocks _ _
+
+theorem dropAllUnwinding_mocks (w : World α ρ) (t : Nat) (is : List Nat) : (dropAllUnwinding w t is).1.mocks = w.mocks := by
+  induction is generalizing w with
+  | nil => rfl
+  | cons i is ih =>
+    simp only [dropAllUnwinding]
+    rw [ih, dropInst_mocks]
+
+/-- a call through instance of mock `sh` only appends to that mock's log -/
+theorem setShared_logLe (w : World α ρ) (sh : Nat) (ms : MockSt α ρ) (s' : Shared α ρ)
+    (hms : w.mocks[sh]? = some ms) (hp : ms.shared.reasons <+: s'.reasons) : LogLe w (w.setShared sh s') := by
+  intro k m hm
+  unfold World.setShared
+  simp only [List.getElem?_map, List.getElem?_zipIdx, hm, Option.map_some, Nat.zero_add]
+  by_cases hk : k = sh
+  · subst hk
+    rw [hms] at hm; cases hm
+    exact ⟨{ ms with shared := s' }, by simp, rfl, hp⟩
+  · exact ⟨m, by simp [hk], rfl, List.prefix_refl _⟩
+
+theorem callMethod_log_prefix (env : Env α ρ) (fuel lvl : Nat) (s : Shared α ρ) (m : MethodInfo) (a : α) :
+    s.reasons <+: (callMethod env fuel lvl s m a).shared.reasons := by
+  rw [(C08_method_call_logs env fuel).1]; exact List.prefix_append _ _
+
+/-- **C08, the error log of every mock is append-only under every event** — build, call (through any instance, on
+    any thread), clone, drop (also while unwinding), verify, report, no_verify_in_drop, by-value consumption. -/
+theorem C08_step_log_append_only (env : Env α ρ) (w : World α ρ) (e : Event α ρ) : LogLe w (step env w e).1 := by
+  have hcall : ∀ (x : Inst) (ms : MockSt α ρ) (m : MethodInfo) (a : α), w.mocks[x.sh]? = some ms →
+      LogLe w (w.setShared x.sh (callMethod env fuelDefault 0 ms.shared m a).shared) :=
+    fun x ms m a hms => setShared_logLe w x.sh ms _ hms (callMethod_log_prefix env fuelDefault 0 ms.shared m a)
+  cases e with
+  | build i t fb c =>
+    simp only [step]
+    cases newMock fb c with
+    | error e => exact LogLe.refl w
+    | ok s =>
+      simp only
+      intro k m hm
+      refine ⟨m, ?_, rfl, List.prefix_refl _⟩
+      rw [setInst_mocks']
+      simp only
+      rw [List.getElem?_append_left (List.getElem?_eq_some_iff.1 hm).1]
+      exact hm
+  | call i t m a =>
+    simp only [step]
+    cases hi : w.inst? i with
+    | none => exact LogLe.refl w
+    | some x =>
+      simp only
+      split
+      · exact LogLe.refl w
+      · cases hms : w.mocks[x.sh]? with
+        | none => exact LogLe.refl w
+        | some ms =>
+          simp only
+          exact (hcall x ms m a hms).trans (LogLe.of_mocks_eq (setInst_mocks' _ _ _))
+  | clone i j => exact LogLe.of_mocks_eq (C18_lifecycle_events_keep_shared env w i j 0 false).1
+  | drop i t p => exact LogLe.of_mocks_eq (C18_lifecycle_events_keep_shared env w i 0 t p).2.1
+  | verify i t => exact LogLe.of_mocks_eq (C18_lifecycle_events_keep_shared env w i 0 t false).2.2.1
+  | noVerify i t => exact LogLe.of_mocks_eq (C18_lifecycle_events_keep_shared env w i 0 t false).2.2.2.1
+  | report i t => exact LogLe.of_mocks_eq (C18_lifecycle_events_keep_shared env w i 0 t false).2.2.2.2
+  | unwindCall i t m a also =>
+    simp only [step]
+    cases hi : w.inst? i with
+    | none => exact LogLe.refl w
+    | some x =>
+      simp only
+      split
+      · exact LogLe.refl w
+      · cases hms : w.mocks[x.sh]? with
+        | none => exact LogLe.refl w
+        | some ms =>
+          simp only
+          refine (hcall x ms m a hms).trans (LogLe.of_mocks_eq ?_)
+          rw [dropAllUnwinding_mocks]; exact setInst_mocks' _ _ _
+  | consume i t m a =>
+    simp only [step]
+    cases hi : w.inst? i with
+    | none => exact LogLe.refl w
+    | some x =>
+      simp only
+      split
+      · exact LogLe.refl w
+      · cases hms : w.mocks[x.sh]? with
+        | none => exact LogLe.refl w
+        | some ms =>
+          simp only
+          refine (hcall x ms m a hms).trans (LogLe.of_mocks_eq ?_)
+          rw [dropInst_mocks]; exact setInst_mocks' _ _ _
+
+/-- **C08 for every history.** Whatever happens afterwards — any events on any instances and threads — an error
+    that has been recorded stays in the log of its mock (and with `C08_teardown_forwards`: the original's verification
+    then fails with it). -/
+theorem C08_log_append_only (env : Env α ρ) (w : World α ρ) (evs : List (Event α ρ)) : LogLe w (run env w evs).1 := by
+  induction evs generalizing w with
+  | nil => exact LogLe.refl w
+  | cons e es ih =>
+    simp only [run]
+    exact (C08_step_log_append_only env w e).trans (ih _)
 
 end Unimock
